@@ -86,3 +86,8 @@ C16_ORDER_AFTER = {
     "sort:return None": "sort() of an empty list has nothing to do and returns before touching the list (no modified callback, no change)",
     "computed_after": ("reverse", "sort"),  # the new index depends on the resulting order: read _focus/value before, store after
 }
+
+# C08.4: keypress methods outside the return discipline, one reason each.
+C08_RET_EXEMPT = {
+    "widget.widget.WidgetProto.keypress": "typing.Protocol stub without a body",
+}
